@@ -1226,6 +1226,9 @@ htp_status_t htp_tx_state_response_complete_ex(htp_tx_t *tx, int hybrid_mode) {
         if (rc != HTP_OK) return rc;
     }
 
+    // Set when the outbound parser must yield to the inbound parser once this response is wrapped up.
+    htp_status_t yield = HTP_OK;
+
     if (!hybrid_mode) {
         // Check if the inbound parser is waiting on us. If it is, that means that
         // there might be request data that the inbound parser hasn't consumed yet.
@@ -1244,18 +1247,18 @@ htp_status_t htp_tx_state_response_complete_ex(htp_tx_t *tx, int hybrid_mode) {
 #ifdef OISF_LIBHTP_VERIF
             htp_verif_trace(2);
 #endif
-            return HTP_DATA_OTHER;
+            yield = HTP_DATA_OTHER;
         }
 
         // Do we have a signal to yield to inbound processing at
         // the end of the next transaction?
-        if (tx->connp->out_data_other_at_tx_end) {
+        else if (tx->connp->out_data_other_at_tx_end) {
             // We do. Let's yield then.
             tx->connp->out_data_other_at_tx_end = 0;
 #ifdef OISF_LIBHTP_VERIF
             htp_verif_trace(2);
 #endif
-            return HTP_DATA_OTHER;
+            yield = HTP_DATA_OTHER;
         }
     }
 
@@ -1263,6 +1266,8 @@ htp_status_t htp_tx_state_response_complete_ex(htp_tx_t *tx, int hybrid_mode) {
     // we don't have to reference it via tx, which may be destroyed later.
     htp_connp_t *connp = tx->connp;
 
+    // Also when yielding: the response is over, and a transaction left attached here would be
+    // finalized a second time after the inbound parser has completed (and finalized) it.
     // Finalize the transaction. This may call may destroy the transaction, if auto-destroy is enabled.
     htp_status_t rc = htp_tx_finalize(tx);
     if (rc != HTP_OK) return rc;
@@ -1272,7 +1277,7 @@ htp_status_t htp_tx_state_response_complete_ex(htp_tx_t *tx, int hybrid_mode) {
 
     connp->out_state = htp_connp_RES_IDLE;
 
-    return HTP_OK;
+    return yield;
 }
 
 /**
